@@ -66,13 +66,35 @@ class PlayerProbe(walk.Observer):
         self.player = None
 
 
-def observe(game, raw, strict):
+def minimal_file(game, raw, engine=None):
+    ext = GAMES[game]
+    if engine is None:
+        engine = {'clientVersionFromXml': raw} if game != 'wowp' else {'clientVersion': raw}
+    return container.write_container(ext, json.dumps(engine, ensure_ascii=False).encode('utf-8'), [], b'')
+
+
+def getinfo_request(game, data, version, bund, strict):
+    """the model's get_info on the same file: cipher table and inflated stream supplied (external), version field extracted here (json)"""
+    ext = GAMES[game]
+    req = container.model_request(ext, data)
+    return {'op': 'getinfo', 'ext': ext, 'file': req['file'], 'dtable': req['dtable'], 'stream': '', 'version': version,
+            'bundled': bund, 'strict': strict}
+
+
+def outcome_class(o):
+    """comparable form of an observed get_info outcome"""
+    if 'raised' in o:
+        return {'raises': True}
+    return {'returns': {'error': o.get('error')}}
+
+
+def observe(game, raw, strict, data=None):
     """parse a minimal container carrying this version string"""
     import replay_parser
     from replay_unpack.clients import wows, wot, wowp
     ext = GAMES[game]
-    engine = {'clientVersionFromXml': raw} if game != 'wowp' else {'clientVersion': raw}
-    data = container.write_container(ext, json.dumps(engine, ensure_ascii=False).encode('utf-8'), [], b'')
+    if data is None:
+        data = minimal_file(game, raw)
     path = os.path.join(common.WORK, 'c11-%d.%s' % (os.getpid(), ext))
     with open(path, 'wb') as f:
         f.write(data)
@@ -161,6 +183,17 @@ def run(chk, drv):
         cases.append((game, raw, comps))
         reqs.append({'op': 'version.select', 'game': game, 'raw': raw, 'bundled': bund[game]})
     replies = drv.run(reqs) if drv is not None else [None] * len(cases)
+    # the top of the pipeline (ReplayModel.getInfo): the same files through the model's get_info, both modes
+    gi = {}
+    if drv is not None:
+        greqs = []
+        for game, raw, comps in cases:
+            data = minimal_file(game, raw)
+            for strict in (False, True):
+                greqs.append(getinfo_request(game, data, raw, bund, strict))
+        grep = drv.run(greqs)
+        for k, (game, raw, comps) in enumerate(cases):
+            gi[(game, raw)] = (grep[2 * k], grep[2 * k + 1])
     for i, ((game, raw, comps), m) in enumerate(zip(cases, replies)):
         b = bund[game]
         want = rule(game, comps, b)
@@ -194,6 +227,41 @@ def run(chk, drv):
                 chk.broken.append('correspondence version.select: model %s vs implementation %s for %s %r' % (m, len_, game, raw))
             else:
                 chk.cov['traces_validated_against_impl'] += 1
+            # get_info as a whole: raises / returns and the error text, per mode (whether a summary exists for an empty stream is the
+            # controller's business, outside the model)
+            for mode, obs, mod in (('lenient', len_, gi[(game, raw)][0]), ('strict', strict, gi[(game, raw)][1])):
+                mc = {'raises': True} if mod.get('raises') else {'returns': {'error': mod['returns']['error']}}
+                oc = outcome_class(obs)
+                if mc != oc and not (mode == 'strict' and want is not None and 'raised' in obs):
+                    # (strict mode on a resolved version with an empty stream: a controller may refuse to summarise nothing)
+                    chk.broken.append('correspondence getInfo (%s): model %s vs implementation %s for %s %r' % (mode, mc, obs, game, raw))
+                else:
+                    chk.dist('getinfo:%s:%s' % (mode, 'raises' if 'raises' in mc else ('error' if mc['returns']['error'] else 'returns')))
+    if drv is not None:
+        top_level_cases(chk, drv, bund)
+
+
+def top_level_cases(chk, drv, bund):
+    """get_info on files that fail above the version resolution: no version field, wrong magic, truncated container"""
+    for game in GAMES:
+        ext = GAMES[game]
+        good = minimal_file(game, '0,0,0,0')
+        variants = [('no-version-field', minimal_file(game, None, engine={'other': 1}), None),
+                    ('bad-magic', b'\x00' + good[1:], '0,0,0,0'),
+                    ('truncated-header', good[:9], '0,0,0,0')]
+        for name, data, version in variants:
+            for strict in (False, True):
+                obs = observe(game, None, strict, data=data)
+                mod = drv.run([getinfo_request(game, data, version, bund, strict)])[0]
+                mc = {'raises': True} if mod.get('raises') else {'returns': {'error': mod['returns']['error']}}
+                chk.count(('top', game, name, strict), True)
+                chk.dist('getinfo:%s:%s' % (name, 'raises' if 'raises' in mc else 'returns'))
+                if mc != outcome_class(obs):
+                    chk.broken.append('correspondence getInfo (%s, %s, strict=%s): model %s vs implementation %s' % (game, name, strict, mc, obs))
+                # the property's own reading: a damaged container raises in both modes; a missing field raises iff strict
+                if name == 'no-version-field' and (('raised' in obs) != strict):
+                    chk.report('a first block without a version field: strict must raise, lenient must return a result object',
+                               {'kind': 'top-level', 'game': game, 'variant': name, 'strict': strict, 'observed': obs})
 
 
 def search(chk, drv):
